@@ -20,9 +20,13 @@ def ode_case(case):
     if sympy.simplify(sum(m.get_ode_eqn())) != 0:
         bad.append("symbolic sum of the ODE components is %s" % sympy.simplify(sum(m.get_ode_eqn())))
     with native.quiet():
-        sol = m.integrate(np.linspace(0.2, 2.0, 6))
+        sol, info = m.integrate(np.linspace(0.2, 2.0, 6), full_output=True)
+    # a random model can drive a compartment negative, where a saturating rate x/(1+x) has a pole: the ODE has no solution past it
+    # and odeint reports failure (rows of zeros).  Conservation is a statement about solutions, so only a run the integrator
+    # reports as successful, with a state that stays in the closed positive orthant, is judged
+    ok = isinstance(info, dict) and str(info.get('message', '')).startswith('Integration successful') and np.all(np.asarray(sol, float) > -1e-9)
     tot = np.asarray(sol, float).sum(axis=1)
-    if np.any(np.abs(tot - tot[0]) > 1e-6 * (1 + abs(tot[0]))):
+    if ok and np.any(np.abs(tot - tot[0]) > 1e-6 * (1 + abs(tot[0]))):
         bad.append("deterministic solution: total goes %s" % tot.tolist())
     return bad
 
